@@ -254,6 +254,23 @@ class Grower:
             if not a:
                 return False
             x, shp = a
+            scalar = None
+            if rng.random() < 0.25:
+                # reshape of a one-element tensor to a scalar: the shape operand is a ZERO-LENGTH constant (what converters emit)
+                scalar = self.pick(pred=lambda sh: len(sh) > 0 and int(np.prod(sh)) == 1)
+            if scalar is not None:
+                x, shp = scalar
+                sh = self.iconst([], base="shape")
+                y = self.new_act([])
+                opts = s.ReshapeOptionsT()
+                opts.newShape = []
+                g.op(BO.RESHAPE, [x, sh], [y], OPT.ReshapeOptions, opts)
+                self.out(y, [])
+                self.tags.add("reshape_to_scalar")
+                self.op_kinds.append(kind)
+                return True
+            if len(shp) == 0:
+                return False
             if rng.random() < 0.12:
                 # pass-through op on a constant (a converter would fold it, but it is a legal model)
                 shp = (rng.randint(1, 2), rng.choice([2, 4]))
@@ -279,10 +296,10 @@ class Grower:
             if not a:
                 return False
             x, shp = a
+            if kind == "SOFTMAX" and len(shp) < 1:
+                return False   # (before any tensor is created: a dangling tensor is never allocated by the interpreter)
             y = self.new_act(shp)
             if kind == "SOFTMAX":
-                if len(shp) < 1:
-                    return False
                 opts = s.SoftmaxOptionsT()
                 opts.beta = 1.0
                 g.op(BO.SOFTMAX, [x], [y], OPT.SoftmaxOptions, opts)
